@@ -124,8 +124,9 @@ def run_mutants(mod, pid: str, overlay: Overlay, seed: int = 0, jobs: int = 0) -
             results = list(ex.map(_run_one, args))
     else:
         results = [_run_one(a) for a in args]
-    # the corpus expectations (which seed is caught, which refactoring is silent) were recorded on the reference tree: on any other tree
-    # - somebody's change under review - a corpus patch meets code it was not written for, so its outcome is reported, not enforced
+    # the self-test expectations (which seeded edit / corpus seed is caught, which benign edit / refactoring is silent) were recorded on the
+    # reference tree: on any other tree - somebody's change under review - an edit meets code it was not written for, so its outcome is
+    # reported in the evidence, not enforced (the verdict on the tree itself never depends on the self-test)
     strict = True
     try:
         import json as _json
@@ -135,7 +136,7 @@ def run_mutants(mod, pid: str, overlay: Overlay, seed: int = 0, jobs: int = 0) -
         pass
     if not strict:
         for r in results:
-            if r['status'] in ('MISSED', 'FALSE-ALARM') and str(r.get('mutant', '')).startswith(('seed:', 'refactor:')):
+            if r['status'] in ('MISSED', 'FALSE-ALARM'):          # corpus patches and hand-written edits alike
                 r['status'] = 'not-enforced (%s on a tree that differs from the corpus baseline)' % r['status']
     bad = [r for r in results if r['status'] in ('MISSED', 'FALSE-ALARM')]
     summary = {
